@@ -306,12 +306,12 @@ def stereo_labelings(rec, r, max_k=4, max_rounds=3):
 def atlas_records(max_nodes, trials, tag='d01', stereo=True, components=True, max_k=4):
     """decorated atlas records (valence-valid only), de-duplicated by decoration.  Deterministic for a given VERIF_SEED."""
     import networkx as nx
-    r = D.rnd(tag)
     out = []
     kinds = ('stereo', 'mixed', 'cumul', 'sym')
     for g in D.atlas(max_nodes):
         seen = set()
         gname = g.name
+        r = D.rnd(f'{tag}:{gname}')  # one generator per graph: decoration #t of graph G is the same molecule in every tier / check
         tree = nx.is_tree(g)
         for t in range(trials + (trials if tree else 0)):  # trees carry most of the stereo that is outside the documented gaps
             kind = 'plain' if t == 0 else kinds[t % 4]
@@ -370,6 +370,7 @@ SPECIAL_SMILES = (
     'C[C@H](O)[C@H](Cl)[C@@H](C)O', 'C[C@H](O)[C@@H](Cl)[C@@H](C)O', '[2H][C@H](C)O', '[2H][C@@]([3H])(F)Cl', 'C[C@H](F)[C@@H](C)[18F]',
     '[13CH3][CH2][12CH3]', '[CH2+]C[CH2-]', '[O-]C(=O)C([O])=O', '[NH3+][C@@H](C)C([O-])=O', 'C[P+](C)(C)[CH-]C', 'C=[N+]=[N-]',
     '[CH2]C(C)(C)[CH2]', 'C1CC1[C@H](F)C1CC1', 'OC[C@@H](O)[C@H](O)[C@@H](O)CO', 'OC[C@@H](O)[C@@H](O)[C@@H](O)CO',
+    'C12=C3[C@]14C[C@]23C4', 'C12=C3[C@]14C[C@@]23C4',
 )
 
 
